@@ -387,7 +387,9 @@ ORACLES = {
             _oracle('flattened element selected BEFORE its parent, no condition', 60, 600, kind='flatten', with_cond=False,
                     select_parent=True, element_first=True, n=4),
             _oracle('flattened element selected before its parent, condition, falsy elements', 40, 400, kind='flatten', with_cond=True,
-                    select_parent=True, element_first=True, falsy=True)],
+                    select_parent=True, element_first=True, falsy=True),
+            _oracle('or_(and_(condition on the flattened element, literal-free condition on the parent alone), another condition), '
+                    'several elements per parent, result cache on', 120, 2000, kind='flatten_elem', n=4, depth=1, or_and_parent=True)],
     'C19': [_oracle('falsy attribute values as operands', 200, 3000, nvars=1, depth=2, falsy=True, neg=True, nested_neg=True),
             _oracle('falsy / None values as selected outputs', 100, 1500, kind='select', single_attr=True),
             _oracle('field constraints with None / falsy values in predicate-form terms', 100, 1500, kind='predform', allow_empty=True),
